@@ -278,3 +278,8 @@ pub proof fn lemma_dir_by_reversal(s: Seq<char>)
         assert(s.subrange(0, a.len() as int) =~= a);
     }
 }
+
+// the status of a successful static answer depends on the method and on the presence of a Range header only
+pub open spec fn static_status(method: Seq<char>, has_range: bool) -> int {
+    if method == METHOD.options@ { 204 } else if has_range { 206 } else { 200 }
+}
